@@ -43,6 +43,9 @@ def simplify(run):
                 x in cfg['omit'] for x in
                 coresim.st.COMPONENTS.get(k, [])):
             c = copy.deepcopy(run); c['config']['how'][k] = 'tensor'; yield c
+    if cfg.get('interp_method', 'linear') != 'linear':
+        c = copy.deepcopy(run); c['config']['interp_method'] = 'linear'
+        yield c
     if cfg['tetrad'] != 'quasi-Kinnersley':
         c = copy.deepcopy(run)
         c['config']['tetrad'] = 'quasi-Kinnersley'
